@@ -1673,7 +1673,6 @@ def read_index(file, name, index, tindex, stop=b'\377' * 8,
 
         if tid <= ltid:
             logger.warning("%s time-stamp reduction at %s", name, pos)
-        ltid = tid
 
         if pos + (tl + 8) > file_size or status == 'c':
             # Hm, the data were truncated or the checkpoint flag wasn't
@@ -1716,6 +1715,9 @@ def read_index(file, name, index, tindex, stop=b'\377' * 8,
 
         if tid >= stop:
             break
+
+        # Only a transaction that is kept counts as the last transaction.
+        ltid = tid
 
         tpos = pos
         tend = tpos + tl
